@@ -1142,6 +1142,14 @@ func (c *FnCtx) checkAsserts(fr *frame, b *ssa.BasicBlock, st *State, in ssa.Ins
 			}
 			return base(n)
 		}
+		ec.loopVar = func(n int, name string) (Val, bool) {
+			for _, l := range fr.loops {
+				if l.ord == n {
+					return c.phiByName(fr, l, name)
+				}
+			}
+			return Val{}, false
+		}
 		ec.entryName = func(name string) (Val, bool) {
 			for _, p := range fr.fn.Params {
 				if p.Name() == name {
